@@ -23,7 +23,11 @@ Proof.
                          | eapply tok_burn_core_same; eassumption
                          | apply same_refl
                          | eapply same_trans; [eapply tok_transfer_checked_same; eassumption|eapply withdraw_sol_cpi_same; eassumption] ] ].
-  destruct ms; invp. eapply IHd; eassumption.
+  - destruct ms; invp. eapply IHd; eassumption.
+  - apply same_dstep.
+    match goal with Hb : (if ?b then _ else _) = Ok _ |- _ => destruct b; revert Hb end.
+    + intros H; invp. eapply same_trans; [eapply tok_transfer_checked_same; eassumption|eapply withdraw_sol_cpi_same; eassumption].
+    + destruct (nthk ms 8); intros H; invp. eapply withdraw_sol_cpi_same; eassumption.
 Qed.
 
 (* ------------------------------------------------------------------ instruction lists and transactions *)
